@@ -10,7 +10,10 @@ verus! {
 //@extract lightning/src/routing/gossip.rs :: enum EffectiveCapacity
 //@derive Clone Copy
 //@end
-pub struct ChannelDetails { pub next_outbound_htlc_minimum_msat: u64, pub next_outbound_htlc_limit_msat: u64 }
+// the numeric fields of ChannelDetails / ChannelCounterparty an accessor could plausibly read (environment completeness)
+pub struct ChannelCounterparty { pub outbound_htlc_minimum_msat: Option<u64>, pub outbound_htlc_maximum_msat: Option<u64>, pub unspendable_punishment_reserve: u64 }
+pub struct ChannelDetails { pub next_outbound_htlc_minimum_msat: u64, pub next_outbound_htlc_limit_msat: u64, pub outbound_capacity_msat: u64, pub inbound_capacity_msat: u64,
+    pub channel_value_satoshis: u64, pub inbound_htlc_minimum_msat: Option<u64>, pub inbound_htlc_maximum_msat: Option<u64>, pub counterparty: ChannelCounterparty }
 pub struct ChannelUpdateInfo { pub htlc_minimum_msat: u64, pub cltv_expiry_delta: u16, pub fees: RoutingFees }
 pub struct DirectedChannelInfo { pub dir: ChannelUpdateInfo, pub cap: EffectiveCapacity }
 impl DirectedChannelInfo {
